@@ -68,7 +68,7 @@ func init() {
 				continue
 			}
 			for _, seq := range seqs {
-				e.evals++
+				e.evals.Add(1)
 				// split into buffers at every third position for short packets
 				bufs := net.Buffers{pkt}
 				if len(pkt) > 3 {
@@ -91,7 +91,7 @@ func init() {
 				}
 				// every truncation
 				for n := 0; n < len(got); n++ {
-					e.evals++
+					e.evals.Add(1)
 					if _, _, derr := mqtt.VerifDecodeValue(clone(got[:n])); derr == nil {
 						e.violate("C15", "truncation-accepted", "value of %d bytes truncated to %d was accepted", len(got), n)
 					}
@@ -102,7 +102,7 @@ func init() {
 					orig := buf[i]
 					for d := 1; d < 256; d++ {
 						buf[i] = orig ^ byte(d)
-						e.evals++
+						e.evals.Add(1)
 						if _, _, derr := mqtt.VerifDecodeValue(buf); derr == nil {
 							e.violate("C15", "damage-accepted", "value of %d bytes with byte %d changed from %#02x to %#02x was accepted", len(got), i, orig, buf[i])
 						}
@@ -140,7 +140,7 @@ func init() {
 					cfg.PauseTimeout = 0
 					cfg.Dialer = func(ctx context.Context) (net.Conn, error) { dialed++; return conn, nil }
 					cl, warn, fatal := mqtt.AdoptSession(s2, &cfg)
-					e.evals++
+					e.evals.Add(1)
 					if fatal != nil {
 						e.violate("C15", "adopt-fatal-on-damage", "AdoptSession failed on a damaged %s record: %v", kind, fatal)
 						continue
@@ -237,7 +237,7 @@ func init() {
 			if !e.mine() {
 				continue
 			}
-			e.evals++
+			e.evals.Add(1)
 			wantDeny, wantEnd := false, false
 			for _, l := range t.leaves {
 				wantDeny = wantDeny || isDenyLeaf(l)
@@ -358,7 +358,7 @@ func c20(e *e3, thorough bool) {
 				if !e.mine() {
 					continue
 				}
-				e.evals++
+				e.evals.Add(1)
 				rec := &recTB{}
 				panicked := false
 				func() {
@@ -443,7 +443,7 @@ func c20(e *e3, thorough bool) {
 					if !e.mine() {
 						continue
 					}
-					e.evals++
+					e.evals.Add(1)
 					rec := &recTB{}
 					var w []fl
 					for _, f := range want {
@@ -500,7 +500,7 @@ func c20(e *e3, thorough bool) {
 			if !e.mine() {
 				continue
 			}
-			e.evals++
+			e.evals.Add(1)
 			rec := &recTB{}
 			var want []tr
 			for i := 0; i < nwant; i++ {
@@ -566,7 +566,7 @@ func c20(e *e3, thorough bool) {
 					"unsubscribe": func(q <-chan struct{}) error { return mqtttest.NewUnsubscribeStub(fixErr)(q, "t") },
 				} {
 					err := f(quit)
-					e.evals++
+					e.evals.Add(1)
 					if qi == 2 && !errors.Is(err, mqtt.ErrCanceled) || qi != 2 && err != fixErr {
 						e.violate("C20", "stub-contract", "%s stub (fix %v, quit variant %d) returned %v", name, fixErr, qi, err)
 					}
@@ -588,7 +588,7 @@ func c20(e *e3, thorough bool) {
 		}
 		gen(nil, 3)
 		for _, script := range scripts {
-			e.evals++
+			e.evals.Add(1)
 			// which scripts must the constructor refuse?
 			refuse := false
 			for i, x := range script {
